@@ -1,5 +1,74 @@
 package trzsz
 
-func prepopulateImpl(dst string, recipe string, entries []treeEntry) {
-	panic("prepopulate: unknown recipe " + recipe)
+import (
+	"fmt"
+	"os"
+	"path/filepath"
+	"strings"
+	"time"
+)
+
+var oldTime = time.Unix(1_500_000_000, 0)
+
+func putFile(p string, data []byte) {
+	must(os.MkdirAll(filepath.Dir(p), 0o755))
+	must(os.WriteFile(p, data, 0o640))
+	must(os.Chtimes(p, oldTime, oldTime))
 }
+
+// putKind creates one pre-existing entry: '-' nothing, 'f' file, 'e' empty dir, 'n' non-empty dir.
+func putKind(p string, kind byte) {
+	if len(filepath.Base(p)) > 255 {
+		return // such an entry cannot exist
+	}
+	switch kind {
+	case 'f':
+		putFile(p, []byte("pre-existing file "+filepath.Base(p)))
+	case 'e':
+		must(os.MkdirAll(p, 0o750))
+	case 'n':
+		must(os.MkdirAll(p, 0o750))
+		putFile(filepath.Join(p, "inner.txt"), []byte("pre-existing inner of "+filepath.Base(p)))
+	}
+}
+
+// prepopulateImpl builds the prior destination state named by recipe.
+//
+//	c07:<k0><k1><k2>   for every incoming top-level base name: entries at name, name.0, name.1 (kinds -,f,e,n)
+//	c07:series:<n>     name and name.0 .. name.<n-1> all exist as files (n=1000: no fresh name left)
+//	c08:<rel>:<off>    overwrite tests, see c08Prev
+func prepopulateImpl(dst string, recipe string, entries []treeEntry) {
+	tops := map[string]bool{}
+	for _, e := range entries {
+		tops[e.Path] = true
+	}
+	switch {
+	case strings.HasPrefix(recipe, "c07:series:"):
+		var n int
+		fmt.Sscanf(recipe[len("c07:series:"):], "%d", &n)
+		for _, name := range prepopNames {
+			putKind(filepath.Join(dst, name), 'f')
+			for i := 0; i < n; i++ {
+				putKind(filepath.Join(dst, fmt.Sprintf("%s.%d", name, i)), 'f')
+			}
+		}
+	case strings.HasPrefix(recipe, "c07:"):
+		k := recipe[4:]
+		for _, name := range prepopNames {
+			putKind(filepath.Join(dst, name), k[0])
+			putKind(filepath.Join(dst, name+".0"), k[1])
+			putKind(filepath.Join(dst, name+".1"), k[2])
+		}
+	case strings.HasPrefix(recipe, "c08:"):
+		c08Prepopulate(dst, recipe[4:], entries)
+	default:
+		panic("prepopulate: unknown recipe " + recipe)
+	}
+	// unrelated siblings that must never change
+	putFile(filepath.Join(dst, "sibling.keep"), []byte("sibling"))
+	must(os.MkdirAll(filepath.Join(dst, "sibdir"), 0o755))
+	putFile(filepath.Join(dst, "sibdir", "keep.txt"), []byte("sibling in dir"))
+}
+
+// prepopNames is set by the driver before buildWorld: the incoming top-level base names.
+var prepopNames []string
